@@ -226,11 +226,16 @@ def check_logits(c, rec):
         want, wgrad, g = np.asarray(per.mean()), gv[0] * dper / n, np.asarray(gv[0])
     ctx += f" labels={c['labels']} reduction={red}"
     _check_close("cross_entropy forward", np.asarray(out.data).reshape(np.shape(want)), want, scale * (n if red == "sum" else 1), ctx)
+    passes = 2 if len(c["x"]) % 3 == 0 else 1          # every third case differentiates the same result twice
     try:
-        out.backward(Tensor(np.asarray(g, dtype=dt).reshape(out.shape)))
+        for _ in range(passes):
+            out.backward(Tensor(np.asarray(g, dtype=dt).reshape(out.shape)))
     except Exception as e:  # noqa: BLE001
         raise Violation("backward_raised", f"cross_entropy: backward raised {type(e).__name__}: {e}; {ctx}")
-    _check_close("cross_entropy gradient", t.grad.data, wgrad, max(1.0, float(np.abs(gv).max())) * scale, ctx)
+    wgrad = passes * wgrad
+    if passes == 2:
+        rec.tag("backward_twice")
+    _check_close("cross_entropy gradient" + (" (accumulated over two backward calls)" if passes == 2 else ""), t.grad.data, wgrad, max(1.0, float(np.abs(gv).max())) * scale, ctx)
 
 
 def draw_dim(c):
